@@ -263,6 +263,9 @@ func (ex *Exec) callIntrinsic(fr *frame, pos token.Pos, fn *ssa.Function, args [
 	case "SplitCalendar":
 		ex.splitCalendar = true
 		return nil
+	case "NondetMapOrder":
+		ex.nondetMapOrder = true
+		return nil
 	case "ExactFloat":
 		ex.exactFloat = true
 		return nil
